@@ -685,6 +685,19 @@ message A {
 """,
     b"""syntax = "proto2";
 message One { optional int32 a = 1; }""",
+    # files whose last token is the semicolon of a top-level statement: only there is a comment before the end of
+    # the file observable (as the trailing comment of that statement)
+    b"""syntax = "proto3";
+package tail.a;
+message T1 { int32 a = 1; }
+option java_package = "t";""",
+    b"""syntax = "proto2";
+message T2 { optional int32 a = 1; }
+package tail.b;""",
+    b"""edition = "2023";""",
+    b"""syntax = "proto3";
+message T3 { google.protobuf.Empty e = 1; }
+import "google/protobuf/empty.proto";""",
 ]
 
 
@@ -889,3 +902,90 @@ def exhaustive_sources(maxlen, per_file=50):
     for sh in shapes[:: max(1, len(shapes) // 40)]:
         files.append(b"syntax = \"proto2\";\nmessage E { optional int32 x = 1; }" + render_shape(sh, b"e").rstrip(b" "))
     return files
+
+
+# ---------------------------------------------------------------- the two ends of the file
+# top-level statements that end with ';' : the gap between the last one and the end of the file is the only place
+# where a comment before the end of the file is observable (the trailing comment of that statement; protoc drops
+# what follows a closing brace)
+EOF_PREFIXES = [
+    b"syntax = \"proto2\";",
+    b"syntax = \"proto2\";\npackage eof.pkg;",
+    b"syntax = \"proto3\";\nimport \"google/protobuf/empty.proto\";",
+    b"syntax = \"proto2\";\noption java_package = \"x.y\";",
+    b"edition = \"2023\";",
+    b"syntax = \"proto2\";\nmessage M { optional int32 x = 1; }\noption deprecated = true;",
+    b"message NoSyntax { optional int32 x = 1; }\npackage eof.nosyntax;",
+]
+# first declarations of a file: the gap before them has no previous token
+FILE_HEADS = [
+    b"syntax = \"proto2\";\nmessage M {}\n",
+    b"package p.q;\n",
+    b"import \"google/protobuf/empty.proto\";\n",
+    b"option java_package = \"x\";\n",
+    b"message M { optional int32 a = 1; }\n",
+    b"enum E { A = 0; }\n",
+    b"service S {}\n",
+    b"edition = \"2023\";\npackage p;\n",
+    b"extend M { optional int32 e = 100; } message M { extensions 100; }\n",
+]
+BOM = b"\xef\xbb\xbf"
+
+
+def eof_tails(body):
+    """the ways a file can end after the comments and newlines of its last gap: as rendered (a final newline if the
+    last item is a line comment or a newline), the final newline missing (a line comment ended by the end of the
+    file), only blanks / a lone carriage return after that, and the CRLF forms"""
+    nonl = body[:-1] if body.endswith(b"\n") else body
+    crlf = lambda b: b.replace(b"\n", b"\r\n")
+    out = []
+    for t in (body, nonl, nonl + b" \t ", nonl + b"\r", crlf(body), crlf(nonl), nonl + b"\n \t", crlf(nonl) + b"\r\n\r\n"):
+        if t not in out:
+            out.append(t)
+    return out
+
+
+def edge_sources(maxlen):
+    """every small gap shape (small_gap_shapes) at the two ends of a file:
+       - between the last top-level statement that ends with a semicolon (syntax, edition, package, import, option)
+         and the end of the file, with every way of ending the file (eof_tails), with and without byte order mark;
+       - before the first declaration of the file (no previous token), LF and CRLF, with and without byte order mark;
+       - as the whole file (no token at all);
+       - the in-body arrangements of exhaustive_sources for shapes of at most two items, in a CRLF file."""
+    shapes = small_gap_shapes(maxlen)
+    files = []
+    n = 0
+    for si, sh in enumerate(shapes):
+        body = render_shape(sh, b"e").rstrip(b" ")
+        for ti, tail in enumerate(eof_tails(body)):
+            # short shapes: every statement kind; longer ones: the kinds in rotation
+            kinds = range(len(EOF_PREFIXES)) if len(sh) <= 1 else [n % len(EOF_PREFIXES)]
+            for pi in kinds:
+                n += 1
+                f = EOF_PREFIXES[pi] + tail
+                if b"\r\n" in tail:
+                    f = f.replace(b"\n", b"\r\n").replace(b"\r\r\n", b"\r\n")
+                files.append(BOM + f if n % 5 == 0 else f)
+    for si, sh in enumerate(shapes):
+        body = render_shape(sh, b"h")
+        head = FILE_HEADS[si % len(FILE_HEADS)]
+        files.append(body + head)
+        files.append(BOM + body + head)
+        files.append((body + head).replace(b"\n", b"\r\n"))
+        if len(sh) <= 1:
+            for h in FILE_HEADS:
+                files.append(BOM + body + h)
+                files.append((body + h).replace(b"\n", b"\r\n"))
+        if len(sh) <= 2:
+            whole = body.rstrip(b" ")
+            for t in eof_tails(whole):
+                files.append(t)
+            files.append(BOM + whole)
+    for f in exhaustive_sources(min(maxlen, 2)):
+        files.append(f.replace(b"\n", b"\r\n"))
+    seen, out = set(), []
+    for f in files:
+        if f not in seen:
+            seen.add(f)
+            out.append(f)
+    return out
